@@ -320,7 +320,6 @@ func c14Rules(p *core.Prog, r *core.Run) {
 			case f.Op == ">" && isF(f.L, "Priority") && f.R.Name == "0":
 			case f.Op == ">" && f.L.Op == "call" && f.L.Name == "len" && isF(f.L.Args[0], "Target") && f.R.Name == "0":
 			case f.Op == "!=" && f.L.Op == "call" && f.L.Name == "len" && isF(f.L.Args[0], "Target") && f.R.Name == "0":
-			case f.Op == "!=" && isF(f.L, "Target") && f.R.Name == `""`:
 			case f.Op == "true" && strings.Contains(f.L.String(), "next"): // range bookkeeping
 			case f.Op == "<" && f.R != nil && f.R.Op == "call" && f.R.Name == "len": // range index < len
 			default:
